@@ -79,7 +79,7 @@ func (b *Builder) cb(what string) {
 func (b *Builder) Code(n *Node) jen.Code {
 	switch n.K {
 	case "nil":
-		return nil
+		return typedNil(n)
 	case "stmt":
 		return b.Stmt(n)
 	case "dict":
@@ -88,6 +88,18 @@ func (b *Builder) Code(n *Node) jen.Code {
 		// a bare token / group / comment / tag is always carried by a one-item statement
 		return b.Stmt(&Node{K: "stmt", Items: []*Node{n}})
 	}
+}
+
+// typedNil: a nil item is the untyped nil, or a nil *Statement / *Group held in a Code (T = "stmt" / "grp"): all of them
+// are legal items that render nothing.
+func typedNil(n *Node) jen.Code {
+	switch n.T {
+	case "stmt":
+		return (*jen.Statement)(nil)
+	case "grp":
+		return (*jen.Group)(nil)
+	}
+	return nil
 }
 
 // Codes builds the children of a group.
@@ -231,7 +243,7 @@ func (b *Builder) GroupItem(g *jen.Group, it *Node) *jen.Statement {
 		return s
 	}
 	if it.K == "nil" {
-		return g.Add(nil)
+		return g.Add(typedNil(it))
 	}
 	return b.item(reflect.ValueOf(g), it)
 }
@@ -297,6 +309,9 @@ func (b *Builder) item(recv reflect.Value, it *Node) *jen.Statement {
 	case "tag":
 		return call(recv, "Tag", it.M)
 	case "nil":
+		if c := typedNil(it); c != nil {
+			return call(recv, "Add", c)
+		}
 		return call(recv, "Add", nil)
 	case "stmt":
 		return call(recv, "Add", b.Stmt(it))
